@@ -1,5 +1,6 @@
 import BW.Model.Query
 import BW.Model.QueryPost
+import BW.Model.TimeFmt
 import BW.Spec.Query
 import BW.Spec.Having
 import BW.Generated.MemoryFacts
@@ -134,11 +135,24 @@ def mkStrs (uni : List (Nat × Triple × TView)) : Strs :=
     (t.p, v.pstr) :: (match t.o with | .pred p => [(p, v.ostr)] | _ => [])
   let lits : List (Lit × Bytes) := uni.filterMap fun (_, t, v) => match t.o with | .lit l => some (l, v.ostr) | _ => none
   let times : List (Time × Bytes) := preds.filterMap fun (p, s) => match p with | .tmp _ t => some (t, anchorText s) | _ => none
-  { pred := fun p => ((preds.find? (·.1 == p)).map (·.2)).getD []
-    time := fun t => ((times.find? (·.1 == t)).map (·.2)).getD []
+  -- values the harness handed over: its printed forms; values that exist only because a statement wrote them: the
+  -- model's own (`TimeFmt`, checked against every form handed over: `printedFormsAgree`)
+  { pred := fun p => match preds.find? (·.1 == p) with
+      | some x => x.2
+      | none => (BW.Model.TimeFmt.predString p).getD []
+    time := fun t => match times.find? (·.1 == t) with
+      | some x => x.2
+      | none => BW.Model.TimeFmt.rfc3339Nano t
     lit := fun l => match litStrBasic l with
       | some s => s
       | none => ((lits.find? (·.1 == l)).map (·.2)).getD [] }
+
+/-- The printed forms Go gave for a triple's predicate (and predicate object) are the model's own. -/
+def printedFormsAgree (t : Triple) (pstr ostr : Bytes) : Bool :=
+  let ok := fun (p : Pred) (s : Bytes) => match BW.Model.TimeFmt.predString p with
+    | some m => m == s
+    | none => true
+  ok t.p pstr && (match t.o with | .pred p => ok p ostr | _ => true)
 
 def floatAddBits (a b : Nat) : Nat :=
   ((Float.ofBits a.toUInt64) + (Float.ofBits b.toUInt64)).toBits.toNat
@@ -350,7 +364,8 @@ def step (useSpec : Bool) (st : St) (line : String) : St × String :=
       let tr : Triple := ⟨← parseNode (fields s), ← parsePred (fields p), ← parseObj (fields o)⟩
       pure (id, tr, tr.view false id (← unhexBytes pstr) (← unhexBytes str) (← unhexBytes sstr) (← unhexBytes ostr))
     match r with
-    | some (id, tr, some tv) => ({ st with uni := (id, tr, tv) :: st.uni }, "T ok")
+    | some (id, tr, some tv) =>
+      ({ st with uni := (id, tr, tv) :: st.uni }, if printedFormsAgree tr tv.pstr tv.ostr then "T ok" else "T printed-form-mismatch")
     | some (_, _, none) => (st, "T panic")
     | none => (st, "bad-op")
   | ["new", n] =>
